@@ -67,7 +67,7 @@ def run(ctx):
             ncompiled += 1
             distinct.add(src)
         if len(outcomes) > 1:
-            kinds = sorted("panic" if k.startswith("panic@") else k.split(":")[0] for k in outcomes)
+            kinds = sorted({"panic" if k.startswith("panic@") else k.split(":")[0] for k in outcomes})
             site = next((k[6:].split(": ")[0].replace("/repo/", "") for k in outcomes if k.startswith("panic@")), "")
             failures.append(Failure("oracle", "nondeterministic:" + "+".join(kinds) + (f"@{site}" if site else ""),
                                     f"{nrep} compilations in one process and {nproc} fresh processes give {len(outcomes)} different outcomes: {outcomes}",
@@ -81,7 +81,7 @@ def run(ctx):
         "distinct_nontrivial": len(distinct),
         "rule": "every program (hand-written const/panic/struct/function shapes, two programs of more than 2^17 gates, the repository corpus, generated data-movement "
                 "programs) is compiled repeatedly in one process and once in each of several fresh processes (std RandomState "
-                "differs per map and per process); all outcomes (circuit, error or panic) must be identical; non-trivial = distinct "
+                "differs per map and per process); all outcomes (the SSA circuit together with its register form, an error or a panic) must be identical; non-trivial = distinct "
                 "programs that compile",
         "programs": ncompiled,
         "distribution": {"programs": len(progs), "in_process_repetitions": nrep, "fresh_processes": nproc},
